@@ -165,7 +165,10 @@ class Executor:
             return o
         o = self.inst[op["k"]]
         if t == "call":
-            return self._finish(getattr(o, op["m"])(*pos, **kw))
+            return self._finish(getattr(o, op.get("as", op["m"]))(*pos, **kw))
+        if t == "read":
+            o.__class__  # an attribute read (goes through a Python-defined __getattribute__ if there is one)
+            return 0
         if t == "get":
             return getattr(o, op["m"])
         if t == "set":
